@@ -513,6 +513,33 @@ design(
 """,
 )
 
+design(
+    "current_ctx_outside",
+    # a concurrent context, converted FIRST, uses a delayed flag: std consults SequentialContext.current() there and
+    # finds none; the LAST converted context is a coroutine of a std.sequential context
+    """
+    def architecture(self):
+        clk = std.Clock(self.clk)
+        flag = std.SyncFlag(tx_delay=1, rx_delay=1)
+
+        @std.concurrent
+        def views():
+            self.o <<= flag.is_set()
+
+        @std.sequential(clk)
+        def producer():
+            #@CTX
+            if self.a and flag.is_clear():
+                flag.set()
+
+        @std.sequential(clk)
+        async def consumer():
+            await flag.receive()
+            #@CORO
+            self.w <<= self.v
+""",
+)
+
 # designs that are invalid only because of context: must be rejected in a fresh interpreter
 CONTEXT_INVALID = {}
 CONTEXT_INVALID["wait_duration_no_freq"] = (
